@@ -10,6 +10,8 @@ from .common import Ctx, callee_names, fkey
 
 PERS = "aiomysensors.persistence.Persistence"
 OPENERS = ("aiofiles.threadpool.open", "builtins.open", "io.open")
+REMOVERS = ("os.remove", "os.unlink", "aiofiles.os.remove", "aiofiles.os.unlink", "pathlib.Path.unlink", "os.truncate", "shutil.rmtree")
+INDIRECT = ("run_in_executor", "to_thread", "partial", "wrap", "submit")  # callers that take a callable and its arguments
 REPLACERS = ("os.replace", "os.rename", "aiofiles.os.replace", "aiofiles.os.rename", "shutil.move", "pathlib.Path.replace", "pathlib.Path.rename")
 
 
@@ -20,7 +22,7 @@ def run(ctx: Ctx, chk) -> None:
     pers = ctx.cls(PERS)
     n = 0
     seen_open: set = set()
-    for fl in pers.methods.values():
+    for fl in pers.mro_methods().values():
         for f in fl:
             # file access extracted into a private helper (of the class or the module) is judged where it is called
             f = ctx.inl(f)
@@ -75,8 +77,9 @@ def run(ctx: Ctx, chk) -> None:
     chk.run_rule(inplace3, ctx)
     chk.run_rule(save_serial, ctx)
     chk.run_rule(open_flags, ctx)
+    chk.run_rule(live_moved, ctx)
     # replace targets
-    for fl in pers.methods.values():
+    for fl in pers.mro_methods().values():
         for f in fl:
             cn = Canon(ctx.I, f)
             for node in ctx.own_nodes(f):
@@ -89,12 +92,67 @@ def run(ctx: Ctx, chk) -> None:
                         chk.refute(rule, fkey(f, node), f"`{norm(node)}` does not move the new file onto the live path", ctx.loc(f, node))
 
 
+def _callable_and_args(ctx: Ctx, f, node: ast.Call, wanted: tuple):
+    """(full name, argument list) when the call runs one of the wanted file-system functions: directly, or by handing
+    it with its arguments to run_in_executor / to_thread / partial."""
+    names = callee_names(ctx, f, node)
+    hit = next((x for x in names if x in wanted), None)
+    if hit is not None:
+        args = list(node.args)
+        if hit.startswith("pathlib.") and isinstance(node.func, ast.Attribute):
+            args = [node.func.value] + args  # the path object is the victim / source
+        return hit, args
+    if isinstance(node.func, (ast.Attribute, ast.Name)) and norm(node.func).rsplit(".", 1)[-1] in INDIRECT:
+        for i, a in enumerate(node.args):
+            if not isinstance(a, (ast.Name, ast.Attribute)):
+                continue
+            d = ctx.prog.resolve_expr(f.module, a)
+            full = d.obj if d is not None and d.kind == "external" and isinstance(d.obj, str) else None
+            if full is None:
+                continue
+            # resolve_expr reports e.g. os.replace as posix.replace on some builds: compare by the last two parts too
+            cand = next((w for w in wanted if w == full or w.rsplit(".", 1)[-1] == full.rsplit(".", 1)[-1] and full.split(".")[0] in ("os", "posix", "nt", "shutil", "aiofiles")), None)
+            if cand is not None:
+                return cand, list(node.args[i + 1 :])
+    return None
+
+
+def live_moved(ctx: Ctx, chk) -> None:
+    rule = "LIVE-MOVED"
+    chk.rule(rule, "no file-system operation of the persistence moves, removes or truncates the live file itself (os.replace / rename with the live path as *source*, remove / unlink / truncate of it - called directly or handed to an executor): between that operation and the completion of the new file the registry exists under no name that load() reads, so a crash (or a failing open) there loses it")
+    pers = ctx.cls(PERS)
+    n = 0
+    seen: set = set()
+    for fl in pers.mro_methods().values():
+        for f0 in fl:
+            f = ctx.inl(f0)
+            cn = Canon(ctx.I, f)
+            for node in ctx.own_nodes(f):
+                if not isinstance(node, ast.Call) or id(node) in seen:
+                    continue
+                got = _callable_and_args(ctx, f, node, REPLACERS + REMOVERS)
+                if got is None:
+                    continue
+                seen.add(id(node))
+                n += 1
+                chk.instance(rule)
+                full, args = got
+                victim = cn.canon(args[0]) if args else "?"
+                key = f"{f0.fq}::{full}({victim})"
+                if victim in ("self.path", "path or self.path"):
+                    what = "moves the live file away" if full in REPLACERS else "removes / truncates the live file"
+                    chk.refute(rule, key, f"`{norm(node)[:90]}` {what}: from here until the new file is completely written the registry is not under the path load() reads - a crash or a failing open in between leaves no file (load() then starts with an empty registry and the next save overwrites the copy)", ctx.loc(f, node))
+                else:
+                    chk.ok(rule, key, f"operates on {victim}, not on the live path", ctx.loc(f, node))
+    chk.notes[f"{rule}:operations"] = n
+
+
 def open_flags(ctx: Ctx, chk) -> None:
     rule = "OPEN-FLAGS"
     chk.rule(rule, "an open() of the persistence file for writing keeps the flags its mode stands for: no `opener=` that builds its own flag word (mode 'w' is O_WRONLY|O_CREAT|O_TRUNC only through the flags handed to the opener - an opener that ignores them does not truncate, so a shorter new document leaves the tail of the old one behind and the file no longer parses)")
     pers = ctx.cls(PERS)
     n = 0
-    for fl in pers.methods.values():
+    for fl in pers.mro_methods().values():
         for f0 in fl:
             f = ctx.inl(f0)
             for node in ctx.own_nodes(f):
@@ -206,10 +264,20 @@ def inplace3(ctx: Ctx, chk) -> None:
     chk.instance(rule)
     key = f"{save.fq}::encodable"
     unicode_enc = isinstance(enc_v, str) and enc_v.lower().replace("-", "").replace("_", "") in ("utf8", "utf8sig", "utf16", "utf32", "utf16le", "utf16be")
+    errs = next((kw.value for kw in o.keywords if kw.arg == "errors"), None)
+    errs_v = None
+    if errs is not None:
+        try:
+            errs_v = ctx.folder.plain(ctx.folder.fold(save.module, errs))
+        except Unfoldable:
+            errs_v = "?"
+    total_handler = errs_v in ("surrogatepass", "backslashreplace", "replace", "ignore", "xmlcharrefreplace", "namereplace")
     if ascii_only:
         chk.ok(rule, key, "json.dumps writes pure ASCII: encodable under every text encoding", ctx.loc(save, d))
+    elif unicode_enc and total_handler:
+        chk.ok(rule, key, f"non-ASCII text is written, the file is opened with encoding={enc_v!r}, errors={errs_v!r} (unpaired surrogates included)", ctx.loc(save, o))
     elif unicode_enc:
-        chk.ok(rule, key, f"non-ASCII text is written, the file is opened with encoding={enc_v!r}", ctx.loc(save, o))
+        chk.refute(rule, key, f"json.dumps no longer escapes non-ASCII text (ensure_ascii false) and `{norm(o)[:60]}` encodes strictly as {enc_v!r}: a registry string holding an unpaired surrogate (the JSON escape \\udce9 of an existing file loads to one; with ensure_ascii it was written back as that escape) raises UnicodeEncodeError inside the write - after the file was truncated, so the previously saved registry is destroyed without any crash", ctx.loc(save, d))
     else:
         chk.refute(rule, key, f"json.dumps is told not to escape non-ASCII text (ensure_ascii false) but `{norm(o)[:60]}` opens the file with {'the locale default encoding' if enc_v is None else repr(enc_v)}: under a non-Unicode locale a single non-ASCII character makes the write fail after the file was truncated - the previously saved registry is destroyed without any crash", ctx.loc(save, d))
 
@@ -279,7 +347,7 @@ def inplace2(ctx: Ctx, chk) -> None:
     rule = "INPLACE-2"
     chk.rule(rule, "while the persistence file is open for writing nothing is computed that can fail or suspend except the write itself: the registry is serialised completely before the file is opened (an exception while dumping must not leave a truncated file)")
     pers = ctx.cls(PERS)
-    for fl in pers.methods.values():
+    for fl in pers.mro_methods().values():
         for f in fl:
             for w in ctx.own_nodes(f):
                 if not isinstance(w, (ast.With, ast.AsyncWith)):
